@@ -852,8 +852,21 @@ class RedlineEngine:
             return False
 
         if op == EditOperationType.DELETION:
+            first_del = None
+            last_del = None
             for run in target_runs:
-                self.track_delete_run(run)
+                del_elem = self.track_delete_run(run)
+                if del_elem is not None:
+                    if first_del is None:
+                        first_del = del_elem
+                    last_del = del_elem
+            if edit.comment and first_del is not None and last_del is not None:
+                start_p = first_del.getparent()
+                end_p = last_del.getparent()
+                if start_p is end_p:
+                    self._attach_comment(start_p, first_del, last_del, edit.comment)
+                else:
+                    self._attach_comment_spanning(start_p, first_del, end_p, last_del, edit.comment)
 
         elif op == EditOperationType.MODIFICATION:
             first_del_element = None
